@@ -67,6 +67,8 @@ pub struct Obs {
     pub malformed: usize,
     pub xml_full: Option<Vec<String>>,
     pub xml_hdr: Option<Vec<String>>,
+    /// header of the header: (nodes, declarations), or None if build_header panicked on its own result
+    pub hh: Option<Option<(usize, usize)>>,
     pub events: Vec<String>,
 }
 
@@ -117,6 +119,11 @@ impl Obs {
         }
         if self.malformed > 0 {
             v["malformed"] = json!(self.malformed);
+        }
+        match self.hh {
+            Some(Some((n, d))) => v["hh"] = json!([n, d]),
+            Some(None) => v["hh"] = json!("panic"),
+            None => {}
         }
         if let Some(k) = self.panic_key() {
             v["panic"] = json!(k);
@@ -251,6 +258,25 @@ fn run_inner(bytes: &[u8], keep_xml: bool, stage: &Stage, out: &RefCell<Obs>) {
         if keep_xml {
             o.xml_hdr = Some(lines);
         }
+    }
+    // The header is a parse tree without private zones: extracting its header once more must give the same buffer.
+    // (Not part of any property statement: observed for MODEL-DRIFT notes only, a panic here is caught here.  The hook
+    // events of this second pass are not recorded.)
+    {
+        let was_on = penne::verif_trace::is_on();
+        let saved = if was_on { penne::verif_trace::take() } else { Vec::new() };
+        let r = std::panic::catch_unwind(std::panic::AssertUnwindSafe(|| {
+            let hh = header.build_header();
+            (hh.num_parse_nodes(), hh.num_declarations())
+        }));
+        if was_on {
+            let _ = penne::verif_trace::take();
+            penne::verif_trace::start();
+            for e in saved {
+                penne::verif_trace::emit(e);
+            }
+        }
+        out.borrow_mut().hh = Some(r.ok());
     }
     stage.set("done");
     out.borrow_mut().ok = true;
